@@ -16,7 +16,7 @@ import numpy as np
 from harness import common, nnd_corr
 
 COQ_FILES = ["model/Base.v", "model/Heap.v", "model/NND.v", "proofs/ListAux.v", "proofs/HeapProofs.v", "proofs/HeapTopK.v", "proofs/Par.v",
-             "proofs/C05Proofs.v", "proofs/C03Proofs.v"]
+             "proofs/C05Proofs.v", "proofs/C03Proofs.v", "proofs/C03Loop.v"]
 SENTINELS = {"pynndescent/pynndescent_.py": ["nn_descent", "nn_descent_internal_low_memory_parallel", "nn_descent_internal_high_memory_parallel",
                                              "process_candidates", "init_rp_tree", "init_random", "generate_leaf_updates", "generate_graph_updates",
                                              "NNDescent._init_search_graph", "NNDescent.neighbor_graph"],
